@@ -284,6 +284,7 @@ func main() {
 			}
 		}
 		rewroteSync := false
+		inSelect := map[ast.Node]bool{} // communications of a select: rewritten with the select itself
 		inMake := map[*ast.ChanType]bool{}
 		recv2 := map[*ast.UnaryExpr]bool{}
 		// names declared with a channel type or assigned from make(chan ...)
@@ -348,6 +349,9 @@ func main() {
 					add(pos(c.Lparen), 1, ", ")
 				}
 			case *ast.SendStmt: // c <- v  ->  c.Send(v)
+				if inSelect[t] {
+					break
+				}
 				add(pos(t.Arrow), 2, ".Send(")
 				add(pos(t.End()), 0, ")")
 			case *ast.ChanType: // chan T -> *simsched.Chan[T] (except inside make, handled there)
@@ -356,6 +360,9 @@ func main() {
 					add(pos(t.Value.End()), 0, "]")
 				}
 			case *ast.AssignStmt: // v, ok := <-c  ->  v, ok := c.Recv2()
+				if inSelect[t] {
+					break
+				}
 				if len(t.Lhs) == 2 && len(t.Rhs) == 1 {
 					if u, ok := t.Rhs[0].(*ast.UnaryExpr); ok && u.Op == token.ARROW {
 						recv2[u] = true
@@ -376,10 +383,52 @@ func main() {
 					add(pos(t.For), pos(t.Body.Lbrace)+1-pos(t.For), head)
 				}
 			case *ast.SelectStmt:
+				// select { case c <- v: A; case x, ok := <-d: B; default: C }
+				//   -> { r1 := simsched.RecvCase(d); switch simsched.Select(true, simsched.SendCase(c, v), r1) {
+				//        case 0: A; case 1: x, ok := r1.V, r1.OK; B; default: C } }
 				clauseBlocks[t.Body] = true
-				unsupported = append(unsupported, fmt.Sprintf("%s:%d: select inside the library", rel, line(t.Pos())))
+				selN := next
+				var prelude, args []string
+				hasDefault := "false"
+				idx := 0
+				for _, cl := range t.Body.List {
+					cc := cl.(*ast.CommClause)
+					if cc.Comm == nil {
+						hasDefault = "true"
+						continue
+					}
+					txt := func(n ast.Node) string { return string(f.src[pos(n.Pos()):pos(n.End())]) }
+					head := fmt.Sprintf("case %d:", idx)
+					switch c := cc.Comm.(type) {
+					case *ast.SendStmt:
+						inSelect[c] = true
+						args = append(args, fmt.Sprintf("simsched.SendCase(%s, %s)", txt(c.Chan), txt(c.Value)))
+					case *ast.ExprStmt: // case <-c:
+						u := c.X.(*ast.UnaryExpr)
+						inSelect[u] = true
+						args = append(args, fmt.Sprintf("simsched.RecvCase(%s)", txt(u.X)))
+					case *ast.AssignStmt: // case v[, ok] := <-c  /  case v[, ok] = <-c
+						u := c.Rhs[0].(*ast.UnaryExpr)
+						inSelect[u] = true
+						inSelect[c] = true
+						h := fmt.Sprintf("verifSel%d_%d", selN, idx)
+						prelude = append(prelude, fmt.Sprintf("%s := simsched.RecvCase(%s); ", h, txt(u.X)))
+						args = append(args, h)
+						lhs := txt(c.Lhs[0])
+						rhs := h + ".V"
+						if len(c.Lhs) == 2 {
+							lhs += ", " + txt(c.Lhs[1])
+							rhs += ", " + h + ".OK"
+						}
+						head += fmt.Sprintf(" %s %s %s;", lhs, c.Tok.String(), rhs)
+					}
+					add(pos(cc.Case), pos(cc.Colon)+1-pos(cc.Case), head)
+					idx++
+				}
+				add(pos(t.Select), pos(t.Body.Lbrace)+1-pos(t.Select), fmt.Sprintf("{ %sswitch simsched.Select(%s, %s) {", strings.Join(prelude, ""), hasDefault, strings.Join(args, ", ")))
+				add(pos(t.Body.Rbrace)+1, 0, " }")
 			case *ast.UnaryExpr: // <-c  ->  c.Recv()
-				if t.Op == token.ARROW {
+				if t.Op == token.ARROW && !inSelect[t] {
 					add(pos(t.OpPos), 2, "")
 					if recv2[t] {
 						add(pos(t.X.End()), 0, ".Recv2()")
